@@ -287,6 +287,16 @@ func runC18(p *Program, r *Result) {
 		}
 	}
 
+	// ---- R18.6
+	r.Rule("R18.6", "a line counts as a key only if it passes every Bech32 rejection (= R09.3) and the exact HRP/length checks", 9)
+	if d, cbf := r.anchor(pkgBech32, "", "Decode"), r.anchor(pkgBech32, "", "convertBits"); d != nil && cbf != nil {
+		checkDecodeGuards(p, r, d, cbf)
+	}
+	checkSites(p, r, []Site{
+		{"ParseX25519Recipient.hrp", pkgAge, "", "ParseX25519Recipient", "facts:ret", []string{"C18"}},
+		{"ParseX25519Identity.hrp", pkgAge, "", "ParseX25519Identity", "facts:ret", []string{"C18"}},
+	}, "C18")
+
 	// ---- R18.5
 	r.Rule("R18.5", "a size limit that is hit is reported, not silently applied", 6)
 	checkLimitDetection(p, r)
